@@ -22,6 +22,7 @@ func checkC08(c *Ctx) {
 	c.Rule("C08/R7", "a key returns for each field the value at that field's index, or the empty string when the row was trimmed before it")
 	c.Rule("C08/R8", "what a projection remembers about a key depends on the key alone: every per-projection cache filled while projecting (the .config key-to-field table) is keyed by every per-result input of the cached decision — whether a key belongs to .config is a property of the result (file vs internal configuration), so it must not be cached per key")
 
+	c.Rule("C08/R11", "extractors keep no state between results: no closure built by the extractor constructors writes memory it captured (a remembered 'last name' aliases the reader's reused line buffer, so a later benchmark gets an earlier one's key)")
 	c.Rule("C08/R10", "trimmed values are read with care: only the reviewed accessors (Key.Get, Key.string, keyNode.equalRow) index a key's stored values, everything else reads through Key.Get; where a walk over fields meets a field beyond the stored values it skips that field and continues")
 	c.Rule("C08/R9", "keys see every field: the flattened-field cache that Key.String, StringValues and the residue rely on is rebuilt whenever a field is added (same rule as C09/R10: builder leaves non-nil, reset guarded by != nil)")
 	p := mustLoad(c, loadOpts{}, "./benchproc", "./benchproc/internal/parse", "./benchfmt")
@@ -35,6 +36,22 @@ func checkC08(c *Ctx) {
 	c08Get(c, p)
 	c09FlatInvariant(c, p, "C08/R9")
 	c08ValueAccess(c, p)
+	// R11: the extractor constructors: functions of benchproc that return an extractor
+	var ctors []*ssa.Function
+	extT := p.Named("benchproc", "extractor")
+	for _, fn := range p.Funcs("benchproc") {
+		if fn.Parent() != nil || extT == nil {
+			continue
+		}
+		res := fn.Signature.Results()
+		for i := 0; i < res.Len(); i++ {
+			if types.Identical(res.At(i).Type(), extT) {
+				ctors = append(ctors, fn)
+				break
+			}
+		}
+	}
+	closuresKeepNoState(c, p, "C08/R11", ctors, 2, "an extractor writes memory it captured (at %s): whatever it remembers of one result — the name it last saw is a view into the reader's reused line buffer — is stale or overwritten when the next result arrives, so a different benchmark can be given the previous one's key")
 }
 
 func c08Intern(c *Ctx, p *Prog) {
